@@ -73,6 +73,29 @@ def set_perturb(byte):
     _libc.mallopt(ctypes.c_int(-6), ctypes.c_int(int(byte) & 0xFF))
 
 
+def scribble(hist, stats, *arrays):
+    """after a call has returned the caller owns its argument arrays again and may reuse
+    them as workspace: overwrite them, so that an object that kept a view instead of a copy
+    shows it in its next answer"""
+    if not hist.get("scribble"):
+        return
+    for a in arrays:
+        if isinstance(a, np.ndarray) and a.flags.writeable and a.dtype.kind == "f":
+            a[...] = np.nan
+            stats["caller_buffers_overwritten_after_call"] += 1
+
+
+def near_dup(hist, pool, stats, eps=1e-7, seed=0):
+    """the last entry of an input pool becomes a look-alike of the first (equal to ~1e-7
+    relative): consecutive SCF iterations or finite-difference displacements produce such
+    inputs, and a cache keyed on approximate equality would confuse them"""
+    if hist.get("near_dup") and len(pool) > 1:
+        r = np.random.default_rng(12345 + seed)
+        pool[-1] = pool[0] * (1.0 + eps * r.normal(size=pool[0].shape))
+        stats["lookalike_inputs"] += 1
+    return pool
+
+
 def adigest(*arrays):
     h = hashlib.sha256()
     for a in arrays:
@@ -153,7 +176,14 @@ class Universe:
 
         key = (k, nspin, j)
         if key not in self._dms:
-            self._dms[key] = zoo.make_dm(self.mol(k), Rng(derive("c09-dm", self.desc["mols"][k]["dseed"], nspin, j)), nspin)
+            if j == 2 and self.desc.get("near_dup"):
+                # a density matrix that differs from matrix 0 by ~3e-8 relative (symmetric)
+                base = self.dm(k, nspin, 0)
+                r = np.random.default_rng(777 + int(self.desc["mols"][k]["dseed"]) % 10**6)
+                nz = r.normal(size=base.shape[-2:])
+                self._dms[key] = base * (1.0 + 3e-8 * (nz + nz.T))
+            else:
+                self._dms[key] = zoo.make_dm(self.mol(k), Rng(derive("c09-dm", self.desc["mols"][k]["dseed"], nspin, j)), nspin)
         return self._dms[key]
 
 
@@ -374,15 +404,10 @@ def exec_ni_history(hist, rp):
             if ref_exc == type(ex).__name__ and isinstance(ex, RuntimeError) and "exponent is too large" in str(ex):
                 stats["rejected_by_fresh_objects_too"] += 1
                 break
-            # forces are documented as unsupported for some feature families: the same
-            # NotImplementedError from fresh objects is a rejection; the history goes on
-            # with the same object (a rejected request must not damage it)
-            if c == "grad" and isinstance(ex, NotImplementedError) and ref_exc == "NotImplementedError":
-                stats["grad_not_implemented_on_both"] += 1
-                continue
             V("call-raises:%s:%s:%s" % ("nr_uks" if uks else "nr_rks", type(ex).__name__, tb[-1].name if tb else "?"), "step %d: %s" % (step, str(ex)[:200]))
             break
         after = adigest(*(arg if isinstance(arg, (list, tuple)) else [arg]), g.coords, g.weights, mol._atm, mol._bas, mol._env)
+        scribble(hist, stats, *(arg if isinstance(arg, (list, tuple)) else [arg]))
         stats["calls"] += 1
         stats["calls_nset_%d" % len(dms)] += 1
         stats["calls_uks" if uks else "calls_rks"] += 1
@@ -514,6 +539,9 @@ def exec_nldfgen_history(hist, rp):
     nprng2 = np.random.default_rng(p["dseed"] + 1)
     rhos_ato = [W._rho_data(nprng2, nrho, ng_ato) for _ in range(3)]
     vs_pad = [nprng2.normal(size=(nfeat, ng_pad)) for _ in range(3)]
+    near_dup(hist, rhos, stats)
+    near_dup(hist, rhos_ato, stats, seed=1)
+    near_dup(hist, vs, stats, seed=2)
     fresh = {}
     KW = {"plain": {}, "nomap": {"map_grids": False}, "grad": {"map_grids": False, "grad_mode": True}}
 
@@ -606,6 +634,9 @@ def exec_nldfgen_history(hist, rp):
                 break
             if adigest(arr) != b:
                 V("input-mutated:LCAONLDFGenerator.get_potential:vfeat", "step %d: vfeat changed by the call (nspin=%d)" % (step, p["nspin"]))
+            # (rho is not overwritten: the generator documents that it keeps the density of
+            # the feature pass for the potential pass)
+            scribble(hist, stats, arr)
             pots = list(pot) if isinstance(pot, tuple) else [pot]
             refs = ref_pot(last_rho[s], op["v"], s, mode)
             for k, (pk, rk) in enumerate(zip(pots, refs)):
@@ -689,6 +720,8 @@ def exec_tgen_history(hist, rp):
         for a, orig in ins:
             if not np.array_equal(a, orig):
                 V("input-mutated:LCAONLDFGenerator.get_features_and_occ_derivs", "step %d" % step)
+        if op["op"] == "occd":
+            scribble(hist, stats, *[a for a, _ in ins])
         set_perturb(hist["perturb"] ^ 0x5A)
         g2 = W._make_nldfgen(p)[3]
         point(g2, cur)
@@ -977,6 +1010,8 @@ def exec_slplan_history(hist, rp):
     nrho = 5 if st.level == "MGGA" else 4
     rhos = [np.stack([W._rho_data(nprng, 5, n)[:nrho] for _ in range(nspin)]) for _ in range(3)]
     vfs = [nprng.normal(size=(nspin, st.nfeat, n)) for _ in range(3)]
+    near_dup(hist, rhos, stats)
+    near_dup(hist, vfs, stats, seed=1)
     for step, op in enumerate(hist["ops"]):
         stats["op_slplan_" + op["op"]] += 1
         dg.add(op["op"], op["rho"])
@@ -1003,6 +1038,7 @@ def exec_slplan_history(hist, rp):
                 name = "vxc"
             if not same:
                 V("input-mutated:SemilocalPlan.get_%s:rho-or-vfeat" % name, "step %d" % step)
+            scribble(hist, stats, r_in, *([v_in] if op["op"] != "feat" else []))
             ok, why = close(got, ref, 1e-13)
             stats["comparisons"] += 1
             stats["reference_calls"] += 1
@@ -1070,6 +1106,9 @@ def exec_plan_history(hist, rp):
     shape = plan.zero_coefs_full(n).shape
     fs = [nprng.normal(size=shape) for _ in range(3)]
     vfs = [nprng.normal(size=(nl.nfeat, n)) for _ in range(3)]
+    near_dup(hist, rhos, stats)
+    near_dup(hist, fs, stats, seed=1)
+    near_dup(hist, vfs, stats, seed=2)
     site = type(plan).__name__
     fresh = {}
 
@@ -1109,6 +1148,8 @@ def exec_plan_history(hist, rp):
                 feat, dfeat = plan.eval_rho_full(f_in, r_in, spin=s, cache_p=op["cache_p"])
                 if adigest(f_in, r_in) != b:
                     V("input-mutated:%s.eval_rho_full:f-or-rho" % site, "step %d" % step)
+                feat, dfeat = np.array(feat, copy=True), np.array(dfeat, copy=True)
+                scribble(hist, stats, f_in, r_in)
                 rf, rd = ref_rho(op["f"], op["rho"], s)
                 for name, a, c in (("feat", feat, rf), ("dfeat", dfeat, rd)):
                     ok, why = close(a, c)
@@ -1126,6 +1167,8 @@ def exec_plan_history(hist, rp):
                 vf = plan.eval_vxc_full(v_in, vrho, dfeat, r_in, spin=s)
                 if adigest(v_in, r_in, dfeat) != b:
                     V("input-mutated:%s.eval_vxc_full:vfeat-dfeat-or-rho" % site, "step %d" % step)
+                vf, vrho = np.array(vf, copy=True), np.array(vrho, copy=True)
+                scribble(hist, stats, v_in, r_in)
                 rvf, rvr = ref_vxc(i, j, op["v"], s)
                 for name, a, c in (("vf", vf, rvf), ("vrho", vrho, rvr)):
                     ok, why = close(a, c)
@@ -1243,14 +1286,19 @@ EXEC = {"tgen": exec_tgen_history, "ni": exec_ni_history, "nldfgen": exec_nldfge
 
 def gen_history(kind, seed):
     if kind == "ni":
-        return gen_ni_history(seed)
-    if kind == "gen":
-        return gen_gen_history(seed)
-    if kind == "plan":
-        return gen_plan_history(seed)
-    if kind == "ks":
-        return gen_ks_history(seed)
-    return gen_eval_history(seed)
+        h = gen_ni_history(seed)
+    elif kind == "gen":
+        h = gen_gen_history(seed)
+    elif kind == "plan":
+        h = gen_plan_history(seed)
+    elif kind == "ks":
+        h = gen_ks_history(seed)
+    else:
+        h = gen_eval_history(seed)
+    r = Rng(derive("c09-flags", kind, seed))
+    h["scribble"] = bool(r.chance(0.4))
+    h["near_dup"] = bool(r.chance(0.3))
+    return h
 
 
 def run_case(spec):
